@@ -388,6 +388,7 @@ def pairs_minabs_relaxed(c, n):
     formulation (user variable b >= f, b >= -f, plain goal minimising b with the same nominal and
     relaxation) and checked by an independent attainment oracle on the later priorities."""
     rng = c.rng
+    lines, meta = [], []
     for _ in range(n):
         base = G.gen_instance(rng, mode="default", allow_vector=False, allow_critical=False, allow_empty=False,
                               max_prio=2)
@@ -450,7 +451,22 @@ def pairs_minabs_relaxed(c, n):
                             pushed = True
             if pushed:
                 c.hit("min-abs relaxed/later priority uses the slack")
+            # the Lean model of the converted goal's retained bound against the values actually attained
+            i0 = 0 if path else ti
+            lines.append({"op": "minabs_relax", "fstar": fr(float(first[0][v][i0])), "n": fr(nom), "r": fr(r),
+                          "cr": fr(cr)})
+            meta.append((case, nom, abs(first[0][v][i0]) + r + cr * nom,
+                         max(abs(later["results"][0][v][i0]) for later in pr.cap[1:])))
         c.programs += 2
+    outs = c.model(lines) if lines else []
+    for (case, nom, phys, attained), mo in zip(meta, outs or []):
+        upper = float(unfr(mo["upper"])) * nom
+        if not abs(upper - phys) <= 1e-9 * (1 + abs(phys)):
+            c.disagree("retained bound of the converted min-abs goal (model, scaled units x nominal) vs the "
+                       "documented physical bound", case, upper, phys)
+        if attained > upper + 1e-6 * (1.0 + upper):
+            c.disagree("later priority exceeds the model's retained bound of the converted min-abs goal", case,
+                       upper, attained)
 
 
 def pairs_map_modes(c, n):
